@@ -483,7 +483,7 @@ def run_task(task):
     S = scenarios(task['tier'], task['seed'])
     i, k = task['slice']
     mine = S[i::k]
-    res = run_scenarios([s for s in mine if s.inputs], dipkit.dip_patches, timeout_ms=20000, seed=task['seed'], wall_s=900, max_paths=5000)
+    res = run_scenarios([s for s in mine if s.inputs], dipkit.dip_patches, timeout_ms=20000, seed=task['seed'], wall_s=900, max_paths=5000, div_zero='fork')
     res2 = run_scenarios([s for s in mine if not s.inputs], contextlib.nullcontext, timeout_ms=20000, seed=task['seed'])
     for key, val in res2.items():
         if key == 'stats':
